@@ -581,8 +581,8 @@ class PseudoNetCDFFile(PseudoNetCDFSelfReg, object):
             if method == 'bounds':
                 warn('Approximating bounds for val2idx {}'.format(dim))
                 dval = np.diff(dimvals) / 2
-                start = dimvals[:1]
-                end = dimvals[-1:]
+                start = dimvals[:1].copy()
+                end = dimvals[-1:].copy()
                 if (dval == dval[0]).all():
                     start -= dval[0]
                     end += dval[-1]
